@@ -294,6 +294,7 @@ pub async fn run_server(w: Rc<World>, plan: Rc<Plan>) {
     let (w2, p2) = (w.clone(), plan.clone());
     let ctl = fn_factory_with_config(move |ses: v5::Session<St>| {
         let (w, gated, conn) = (w2.clone(), p2.cfg.ctl_gated, ses.conn);
+        w.ev(Ev::Session { conn });
         async move {
             Ok::<_, AppErr>(fn_service(move |msg: Control<AppErr>| control_handler(w.clone(), conn, gated, msg)))
         }
@@ -745,6 +746,9 @@ pub async fn run_client(w: Rc<World>, plan: Rc<Plan>) {
         start_senders(&w, &plan, client.sink());
         let (wa, wb) = (w.clone(), w.clone());
         let gated = plan.cfg.ctl_gated;
+        if !plan.cfg.use_router {
+            w.ev(Ev::Session { conn: cid });
+        }
         let res = if plan.cfg.use_router {
             let (w1, w2, w3) = (w.clone(), w.clone(), w.clone());
             client
